@@ -78,6 +78,13 @@ CLAIMS = {
                  "matcher produces those vectors is shown only for words up to 3 letters (WM lemmas); for the property's 5-9 letter words it is an assumption.",
         "note": STD_NOTE + " Conditional claim: match vectors assumed; store-level insertion orders not executed.",
     },
+    "C04": {
+        "level": "Kernel level, conditional. Solver-decided on real code for words of 5 (quick) and 6 (thorough) letters and every single edit at every "
+                 "position: both pre-filters of the matcher accept the edited query, and the weighted distance of the pair is <= 1 and within the 0.21 "
+                 "threshold (and is what the matcher reads from the matrix). That word_match then reports a match is a reading of its scan loop, decided by "
+                 "the solver only for words up to 3 letters; the composed matcher at >= 4 letters exceeds 40 GB.",
+        "note": STD_NOTE + " 'The record is found' is not decided end to end: index, text matcher and the composed word matcher at this length are outside.",
+    },
     "C17": {
         "level": "Bounded model checking of the real Jaccard::<char>::similarity / rel_dist / simple_similarity: for every listed pair of "
                  "lengths (up to 3x3 quick, 3x4 and 5x2 thorough) the value equals |A∩B|/|A∪B| for ALL characters, is symmetric, in [0,1], and "
@@ -90,8 +97,6 @@ CLAIMS = {
 NOT_APPLICABLE = {
     "C02": "highlight() builds a String from symbolic chars (UTF-8 width, length and offset all symbolic): symbolic execution did not finish "
            "(DESIGN F11); ids/positions need Store::search, which is not executable within memory (F10/F12)",
-    "C04": "needs the real word matcher on words of >= 5 letters: word_match at 4x4 already exceeds 40 GB under CBMC (3x3: 2.4 M variables), "
-           "so no instance of the property's quantifier domain can be decided (DESIGN F14)",
     "C10": "Store histories are not executable under Kani: Store::add + top_ixs on two records exceeds 20 GB, Vec growth inside Store trips "
            "Kani's realloc model, TrigramIndex::add on one 1-letter symbolic record runs out of memory (DESIGN F12); only the scratch-state "
            "lemmas (DL-hist, JAC-hist, TM-local) are decided, under C16/C17/C06",
